@@ -1693,7 +1693,7 @@ class DecayGroup(BaseDecayGroup, AmpBase):
                     for j in self.chains[i].factor_iteration(deep=deep - 1):
                         yield self.chains[i], j
             finally:
-                self.chains_idx = old_chains_idx
+                self.set_used_chains(old_chains_idx)
 
     def get_amp(self, data):
         """
@@ -2074,7 +2074,8 @@ class DecayGroup(BaseDecayGroup, AmpBase):
         try:
             yield
         finally:
-            self.chains_idx = old_idx
+            # also puts back the not_full flag
+            self.set_used_chains(old_idx)
 
     def add_used_chains(self, used_chains):
         for i in used_chains:
